@@ -55,6 +55,11 @@ def make_value(desc, child_sum=0):
         return datetime.date.fromisoformat(v)
     if k == "ts":
         return datetime.datetime.fromisoformat(v)
+    if k == "tsz":
+        import zoneinfo
+        return datetime.datetime.fromisoformat(v).replace(tzinfo=zoneinfo.ZoneInfo(desc["zone"]))      # a NAMED time zone
+    if k == "pdtsz":
+        return pd.Timestamp(v, tz=desc["zone"])
     if k == "list":
         return [make_value(x) for x in v]
     if k == "dict":
@@ -171,6 +176,13 @@ def n4(spec, k=0):
     return _run("n4", spec, k)
 
 
+@memento_function(cluster=CL, version="1")
+def nrelay(spec):
+    """hands on, unchanged, whatever n0 returns for spec["inner"] (on a hit: the stored result as read from the store)"""
+    _trace(("exec", "nrelay", spec.get("id"), None))
+    return n0(spec["inner"])
+
+
 FUNCS = {"n0": n0, "n1": n1, "n2": n2, "n3": n3, "n4": n4}
 
 
@@ -193,8 +205,15 @@ def _pnode_body(spec):
     parent = pnode_fn(spec["parent"])(spec["parent"]) if spec.get("parent") else None
     if spec.get("ondisk"):
         p = OnDiskPartition()
-        for k, v in spec["own"]:
-            p[k] = _part_value(v)
+        if spec.get("reassign") and spec["own"]:
+            # built incrementally: every key starts with the same initial value, then all but the first get their own
+            for k, _ in spec["own"]:
+                p[k] = _part_value(spec["own"][0][1])
+            for k, v in spec["own"][1:]:
+                p[k] = _part_value(v)
+        else:
+            for k, v in spec["own"]:
+                p[k] = _part_value(v)
     elif spec.get("dd"):
         # the idiom of the partition module's docstring: a dictionary with a default factory
         import collections
